@@ -15,7 +15,8 @@ from concurrent.futures import ThreadPoolExecutor
 VERIF = os.path.dirname(os.path.dirname(os.path.dirname(os.path.abspath(__file__))))
 REPO = os.environ.get("VERIF_REPO", "/repo")
 COQ = os.path.join(VERIF, "coq")
-BUILD = os.path.join(VERIF, "build")
+BUILD = os.environ.get("VERIF_BUILD") or os.path.join(VERIF, "build")
+EVIDENCE = os.environ.get("VERIF_EVIDENCE_DIR") or os.path.join(VERIF, "evidence")
 GUARD = "PSD_TOOLS_VERIF"
 
 KERNEL_TB = [
@@ -330,10 +331,10 @@ class Check:
             "wall_s": round(time.time() - self.t0, 2),
             "violations": nviol,
         }
-        os.makedirs(os.path.join(VERIF, "evidence"), exist_ok=True)
-        tmp = os.path.join(VERIF, "evidence", self.pid + ".json.tmp")
+        os.makedirs(EVIDENCE, exist_ok=True)
+        tmp = os.path.join(EVIDENCE, self.pid + ".json.tmp")
         json.dump(ev, open(tmp, "w"), indent=1, default=_jd)
-        os.replace(tmp, os.path.join(VERIF, "evidence", self.pid + ".json"))
+        os.replace(tmp, os.path.join(EVIDENCE, self.pid + ".json"))
 
 
 def _jd(o):
